@@ -234,16 +234,16 @@ _ERASE = [
     r"^<.* as std::convert::Into<.*>>::into$",
     r"^<.* as std::iter::IntoIterator>::into_iter$",
     r"^std::vec::Vec::<.*>::as_slice$",
-    r"^std::slice::<impl \[.*\]>::to_vec$",
-    r"^std::slice::<impl \[.*\]>::iter$",
+    r"^(?:std|core|alloc)::slice::<impl \[.*\]>::to_vec$",
+    r"^(?:std|core)::slice::<impl \[.*\]>::iter$",
     r"^std::option::Option::<.*>::as_ref$",
     r"^std::option::Option::<.*>::as_mut$",
     r"^std::option::Option::<.*>::copied$",
     r"^std::option::Option::<.*>::cloned$",
 ]
 _ERASE = [re.compile(x) for x in _ERASE]
-_LEN = re.compile(r"^(std::vec::Vec::<.*>::len|std::slice::<impl \[.*\]>::len|std::string::String::len|std::str::<impl str>::len)$")
-_IS_EMPTY = re.compile(r"^(std::vec::Vec::<.*>::is_empty|std::slice::<impl \[.*\]>::is_empty|std::string::String::is_empty|std::str::<impl str>::is_empty)$")
+_LEN = re.compile(r"^((?:std|alloc)::vec::Vec::<.*>::len|(?:std|core)::slice::<impl \[.*\]>::len|(?:std|alloc)::string::String::len|(?:std|core)::str::<impl str>::len)$")
+_IS_EMPTY = re.compile(r"^((?:std|alloc)::vec::Vec::<.*>::is_empty|(?:std|core)::slice::<impl \[.*\]>::is_empty|(?:std|alloc)::string::String::is_empty|(?:std|core)::str::<impl str>::is_empty)$")
 _INDEX = re.compile(r"^<.* as std::ops::Index(Mut)?<.*>>::index(_mut)?$")
 _PEQ = re.compile(r"^<.* as std::cmp::PartialEq(<.*>)?>::(eq|ne)$")
 _PORD = re.compile(r"^<.* as std::cmp::PartialOrd(<.*>)?>::(lt|le|gt|ge)$")
@@ -297,6 +297,12 @@ def norm_call(res_inst, res, args, fn=None):
     if m:
         e = ("is", args[0], "Ok")
         return e if m.group(1) == "is_ok" else mk_not(e)
+    if len(args) == 1 and args[0][0] == "const" and args[0][1] == "char" and (p.startswith("core::char::methods::<impl char>::") or p.startswith("std::char::methods::<impl char>::") or p.startswith("char::methods::<impl char>::")):
+        from .charpred import pred_on
+
+        v = pred_on(p.split("::")[-1], args[0][2])
+        if v is not None:
+            return TRUE if v else FALSE
     if _TRY_BRANCH.match(p):
         return ("try", args[0])
     if _FROM_RESIDUAL.match(p):
@@ -616,7 +622,7 @@ def show(e):
     if k == "arg":
         return "a%d" % e[1]
     if k == "argvar":
-        return "a%d*" % e[1]
+        return "a%d" % e[1]
     if k == "mut":
         return show(e[1]) + "\u2032" + (str(e[2]) if e[2] > 1 else "")
     if k == "var":
@@ -753,6 +759,8 @@ class Walker:
         self.truncated = False
         self.init_env = init_env or {}
         self.max_visits = max_visits
+        self.assume = {}
+        self.on_term = None  # callback(bb, term, getter, path) before a terminator is executed
 
     def run(self, start_bb=0):
         env = {}
@@ -842,6 +850,8 @@ class Walker:
                     pass
             t = b["term"]
             k = t["k"]
+            if self.on_term is not None and k in ("call", "assert"):
+                self.on_term(bb, t, self._heap_get(st), path, st)
             if k == "goto":
                 bb = t["t"]
                 continue
@@ -870,6 +880,8 @@ class Walker:
             if k == "call":
                 val, r = self.ev.call(t, self._heap_get(st), st["epoch"], self.impure)
                 d, rr, fn = callee(t)
+                if self.assume and rr is not None and short(rr) in self.assume:
+                    val = self.assume[short(rr)]
                 args = tuple(self.ev.operand(a, self._heap_get(st)) for a in t["args"])
                 path.effects.append(("call", short(rr) if rr else "<indirect>", args, bb, val))
                 # &mut arguments or impure callee: bump epoch
@@ -1057,6 +1069,10 @@ class Walker:
 
 def walk(body, facts=None, **kw):
     start = kw.pop("start_bb", 0)
+    on_term = kw.pop("on_term", None)
+    assume = kw.pop("assume", None)
     w = Walker(body, facts, **kw)
+    w.on_term = on_term
+    w.assume = assume or {}
     w.run(start)
     return w
